@@ -418,9 +418,39 @@ Fixpoint eval (k : kern) (o : nat) (x y : list tc) {struct k} : tc :=
 
 End Eval.
 
+(* ------------------------------------------------------------------ composition with the public operators *)
+(* Kernel OBJECTS as the library builds them: AdditiveKernel / ProductKernel hold a LIST of sub-kernels,
+   ScaleKernel wraps one.  The operators (kernel.py, Kernel.__add__ / Kernel.__mul__) concatenate the
+   operands, flattening an operand only when it is a kernel of the operator's own kind:
+       a + b = AdditiveKernel of (summands a ++ summands b),   a * b = ProductKernel of (factors a ++ factors b)
+   so that k1 * (k2 + k3) has the two factors k1 and (k2 + k3).  The documented value of an
+   AdditiveKernel / ProductKernel / ScaleKernel is the sum / product / scaling of the parts. *)
+Inductive kobj : Type :=
+| OLeaf (k : kern)
+| OScale (s : Qc) (k : kobj)
+| OAdd (ks : list kobj)
+| OMul (ks : list kobj).
+
+Definition summands (k : kobj) : list kobj := match k with OAdd ks => ks | _ => [k] end.
+Definition factors (k : kobj) : list kobj := match k with OMul ks => ks | _ => [k] end.
+Definition op_add (a b : kobj) : kobj := OAdd (summands a ++ summands b).
+Definition op_mul (a b : kobj) : kobj := OMul (factors a ++ factors b).
+
+Section ObjEval.
+Context {T : TOps}.
+Fixpoint oeval (k : kobj) (o : nat) (x y : list tc) {struct k} : tc :=
+  match k with
+  | OLeaf k' => eval k' o x y
+  | OScale s k' => tmul (tq s) (oeval k' o x y)
+  | OAdd ks => fold_right (fun k' acc => tadd (oeval k' o x y) acc) t0 ks
+  | OMul ks => fold_right (fun k' acc => tmul (oeval k' o x y) acc) t1 ks
+  end.
+End ObjEval.
+
 (* ------------------------------------------------------------------ executable wrapper *)
 Inductive job : Type :=
 | JK (k : kern)
+| JO (k : kobj)
 | JRBFGrad (l : list Qc)
 | JM52Grad (l : list Qc)
 | JPolyGrad (c : Qc) (pw : nat)
@@ -440,6 +470,9 @@ Definition run_job (c : job * list (list Qc) * list (list Qc)) : list Z :=
   match j with
   | JK k =>
       flat_map (fun i => flat_map (fun jx => ser_expr (@eval TE k 0 (X1 i) (X2 jx))) (seq 0 n2))
+               (seq 0 n1)
+  | JO k =>
+      flat_map (fun i => flat_map (fun jx => ser_expr (@oeval TE k 0 (X1 i) (X2 jx))) (seq 0 n2))
                (seq 0 n1)
   | JRBFGrad l =>
       multi (S d) (fun i jx a b =>
